@@ -247,6 +247,10 @@ def oracle_uniform(ctx, cuqi, rng, ncfg):
                 counts[cand] = counts.get(cand, 0) + 1
             if sflag != 1 or nprime is None or nprime < 2:
                 continue   # early stop or trivial: the uniformity claim is about completed sub-trees
+            orb = float_orbit(case, 4)
+            pts = [tuple(np.round(orb[v * k][0], 12)) for k in range(1, 5) if v * k in orb]
+            if len(set(pts)) < 4:
+                continue   # degenerate orbit (coinciding leaves): frequencies per position are not 1/n' then
             done += 1
             desc = {"iface": iface, "P": case["P"], "b": case["b"], "x": case["x"], "r": case["r"], "eps": case["eps"], "e": e, "v": v, "n_prime": nprime}
             ctx.case("subtree-uniform", desc)
@@ -255,6 +259,52 @@ def oracle_uniform(ctx, cuqi, rng, ncfg):
             if len(counts) != nprime or any(c * nprime != total for c in counts.values()):
                 ctx.fail(f"NUTS:{iface}:subsampling-uniform", desc, f"each of the {nprime} in-slice leaves returned with frequency 1/{nprime}",
                          {str(k): v_ / total for k, v_ in counts.items()}, "progressive sub-sampling inside the tree is not uniform over the in-slice leaves")
+
+
+
+def oracle_u0(ctx, cuqi, rng, want):
+    """directed edge case: `rand()` returning exactly 0.0 (it is half-open [0,1)) in the in-tree Metropolis test while the
+    second half has no in-slice leaf: the candidate must stay the in-slice one (property: every selected candidate lies in the slice)"""
+    for iface in ("exp", "legacy"):
+        found = 0; tries = 0
+        while found < want and tries < 400:
+            tries += 1
+            case = gen_case(rng, False); case["wall"] = None
+            case["eps"] = rng.choice([0.5, 0.75, 1.0 if iface == "exp" else 0.75, 1.5])
+            orb = float_orbit(case, 2)
+            e = rng.choice([0.05, 0.2, 0.5]); v = rng.choice([-1, 1])
+            if v * 1 not in orb or v * 2 not in orb:
+                continue
+            ham = orb[0][2]; logu = ham - e
+            h1, h2 = orb[v][2], orb[2 * v][2]
+            if not (h1 >= logu + 1e-6 and h2 < logu - 1e-6 and h2 > logu - 900):
+                continue
+            found += 1
+            target, _ = make_target(cuqi, case["P"], case["b"], None)
+            x = np.array(case["x"], float); r = np.array(case["r"], float)
+            with quiet():
+                if iface == "exp":
+                    from cuqi.experimental.mcmc import NUTS
+                    s = NUTS(target, initial_point=x, max_depth=3, step_size=case["eps"])
+                else:
+                    from cuqi.sampler import NUTS
+                    s = NUTS(target, x0=x, max_depth=3, adapt_step_size=case["eps"])
+                s._num_tree_node = 0
+                g0 = np.asarray(target.gradient(x), float)
+                sc = Script([], [], [0.0])
+                with scripted(sc):
+                    res = s._BuildTree(x.copy(), r.copy(), g0.copy(), ham, logu, v, 1, case["eps"])
+            desc = {"iface": iface, "P": case["P"], "b": case["b"], "x": case["x"], "r": case["r"], "eps": case["eps"], "e": e, "v": v, "u": 0.0}
+            ctx.case("tree-u0", desc)
+            cand = np.asarray(res[6], float)
+            mo = ctx.lean.drive(["tree %d 1 %s %s %s none %s %s %s %s 0" % (v, q(case["eps"]), qm(case["P"]), qv(case["b"]), qv(case["x"]), qv(case["r"]), q(logu), q(ham))])[0]
+            mc = [float(t) for t in pv(mo.split("|")[2].strip())]
+            key = f"NUTS:{iface}:tree:u0-selects-outside-slice"
+            if not vclose(cand, mc, 1e-9):
+                ctx.disagree(key, desc, mc, cand.tolist(), "candidate at u=0 differs from the model")
+            if int(res[9]) >= 1 and not np.allclose(cand, orb[v][0], rtol=1e-9, atol=1e-12):
+                ctx.fail(key, desc, "candidate = the in-slice leaf " + str(orb[v][0].tolist()), cand.tolist(),
+                         "with rand()==0.0 the in-tree test `rand() <= n2/max(1,n1+n2)` replaces an in-slice candidate by a leaf outside the slice")
 
 
 def run(ctx):
@@ -332,3 +382,4 @@ def run(ctx):
     ctx.extra_cov["c08_hist"] = hist
     ctx.extra_cov["skipped_small_margin"] = skipped
     oracle_uniform(ctx, cuqi, rng, 6 if not thorough else 40)
+    oracle_u0(ctx, cuqi, rng, 3 if not thorough else 20)
